@@ -400,6 +400,18 @@ def r21n(F):
     return r
 
 
+def _narrow_homes(F, name):
+    """narrow_cached and the private helpers of Shape it hands part of its work to (same file, called from it)"""
+    fn = F.fn(name)
+    out = [name]
+    for b, t in fn.calls():
+        c = callee(t)
+        if c.startswith(SHAPE + "::") and c in F.fns and c != name and "{closure" not in c and not F.fns[c].derived and \
+                F.fns[c].file == fn.file and c not in out:
+            out.append(c)
+    return out
+
+
 def r21q(F):
     r = RuleResult("R21q", "one fitting candidate is enough",
                    "a shape known as one of several candidates (a select result, the element of a mixed list) is narrowed against "
@@ -411,17 +423,19 @@ def r21q(F):
     fn = F.fn(name)
     need(fn is not None, "Shape::narrow_cached not found")
     # the candidate loops: closures (or loops) of narrow_cached that call narrow_cached on an element of a candidate list
+    homes = _narrow_homes(F, name)
     sites = []
     for n in sorted(F.fns):
-        if n.startswith(name + "::{closure"):
+        if any(n.startswith(h + "::{closure") for h in homes):
             for b, t in F.fns[n].calls():
                 if callee(t) == name:
                     sites.append((n, b))
     need(sites, "narrow_cached: no candidate-by-candidate comparison found in a closure (idiom not recognised)")
     terr = set()
-    for b, j, pl, rv, m in fn.assigns():
-        if rv["k"] == "agg" and rv.get("adt") == SHAPE and rv.get("variant") == "TypeErr":
-            terr.add(b)
+    for h in homes:
+        for b, j, pl, rv, m in F.fns[h].assigns():
+            if rv["k"] == "agg" and rv.get("adt") == SHAPE and rv.get("variant") == "TypeErr":
+                terr.add((h, b))
     need(terr, "narrow_cached builds no TypeErr")
     fit = ("e", SHAPE, "Int", ())
     for i, site in enumerate(sites):
@@ -441,13 +455,13 @@ def r21q(F):
         need(not sim.lossy, "narrow_cached: the candidate's result disappears into %s (not modelled)" % sorted({x[2] for x in sim.lossy})[:2])
         fired = [x for x in res if x[0]]
         need(fired, "narrow_cached: the evaluation never reaches the candidate comparison in %s" % site[0].split("::")[-1])
-        bad = sorted(b for (f, b) in sim.visited_fired if f == name and b in terr)
+        bad = sorted(x for x in sim.visited_fired if x in terr)
         bad_ret = [x for x in fired if x[1][0] == "e" and x[1][2] == "TypeErr"]
         ok = not bad and not bad_ret
         r.inst("narrow_cached:candidates#%d:one-fits" % i, F.fns[site[0]].where(site[1]), ok,
                "after a candidate fits no type error is built" if ok else
                "a type error is built (%s) although one candidate fits: a value that is one of several kinds is rejected when ANY kind "
-               "mismatches instead of when ALL do" % (fn.where(bad[0]) if bad else "returned"))
+               "mismatches instead of when ALL do" % (F.fns[bad[0][0]].where(bad[0][1]) if bad else "returned"))
     return r
 
 
@@ -515,14 +529,16 @@ def r21e(F):
     name = SHAPE + "::narrow_cached"
     fn = F.fn(name)
     need(fn is not None, "Shape::narrow_cached not found")
+    homes = _narrow_homes(F, name)
     cmp_closures = set()
     for n in sorted(F.fns):
-        if n.startswith(name + "::{closure") and any(callee(t) == name for b, t in F.fns[n].calls()):
+        if any(n.startswith(h + "::{closure") for h in homes) and any(callee(t) == name for b, t in F.fns[n].calls()):
             cmp_closures.add(n)
     need(cmp_closures, "narrow_cached: no candidate-by-candidate comparison found in a closure (idiom not recognised)")
-    built = {b for b, j, pl, rv, m in fn.assigns() if rv["k"] == "agg" and rv.get("adt") == "{closure}" and rv.get("closure") in cmp_closures}
-    need(built, "narrow_cached: the comparison closures are not built in the function itself")
-    empties = {callee(t) for b, t in fn.calls() if callee(t).endswith("::is_empty")}
+    built = {(h, b) for h in homes for b, j, pl, rv, m in F.fns[h].assigns()
+             if rv["k"] == "agg" and rv.get("adt") == "{closure}" and rv.get("closure") in cmp_closures}
+    need(built, "narrow_cached: the comparison closures are not built in the function itself or a helper of it")
+    empties = {callee(t) for h in homes for b, t in F.fns[h].calls() if callee(t).endswith("::is_empty")}
     need(empties, "narrow_cached asks no is_empty(): the guard for an empty candidate list is written some other way")
     cands = ("e", SHAPE, "Narrowed", (("0", ("e", "ucglib::ast::NarrowedShape", None, (("types", ("e", NARROWING, "Narrowed", ())),))),))
     for side, what in ((1, "left"), (2, "right")):
@@ -533,11 +549,48 @@ def r21e(F):
             sim.run(fn, args, init={(side, ("*",)): cands})
         except AI.Lossy:
             need(False, "narrow_cached: state space too large for the evaluation")
-        hit = sorted(b for (f, b) in sim.visited if f == name and b in built)
-        r.inst("narrow_cached:empty-candidates:%s" % what, fn.where(hit[0]) if hit else fn.where(), not hit,
+        hit = sorted(x for x in sim.visited if x in built)
+        r.inst("narrow_cached:empty-candidates:%s" % what, F.fns[hit[0][0]].where(hit[0][1]) if hit else fn.where(), not hit,
                "an empty candidate list on the %s never reaches the candidate comparison" % what if not hit else
                "with an empty candidate list on the %s the candidate comparison is still reached: `let l = [] + [7, 8]; let x = 1 + l.1;` "
                "is rejected (\"No narrowed candidate is compatible with int\") although it evaluates" % what)
+    # the same for a selector applied to such a shape (`l.0.name` where l started as `[]`): with every is_empty() true and the
+    # walk over the candidates ending at once, no type error is built after the walk
+    dn = TC + "derive_dot_expression"
+    dot = F.fn(dn)
+    need(dot is not None, "derive_dot_expression not found")
+    helpers = [dn]
+    for b, t in dot.calls():
+        c = callee(t)
+        if c.startswith(TC) and c in F.fns and c != dn and not c.endswith("derive_shape") and "{closure" not in c and c not in helpers:
+            helpers.append(c)
+    none = ("it", (("src_empty",),))       # the walk over the candidates starts on an empty list
+    n_sites = 0
+    for hn in helpers:
+        hf = F.fns[hn]
+        walks = [b for b, t in hf.calls() if callee(t).split("::")[-1] in ("iter", "into_iter") and not t["dest"]["p"] and
+                 "ucglib::ast::Shape" in hf.local_ty(t["dest"]["l"])]
+        for k_, wb in enumerate(walks):
+            sim = AI.Sim(F, site=(hn, wb), forced=none, depth=3, opaque={dn},
+                         force_all={c: AI.T for c in {callee(t) for f_ in helpers for b, t in F.fns[f_].calls() if callee(t).endswith("::is_empty")}})
+            args = [AI.U] * dot.nargs
+            args[1] = ("r", (2, ("*",)))
+            # the selector is a plain name / string / number: the parser nests `a.b.c` to the left, so each step arrives here with a
+            # simple right-hand side (the arms for a right-nested chain are not evaluated: no input was found that reaches them)
+            args[2] = ("r", (3, ("*",)))
+            try:
+                sim.run(dot, args, init={(2, ("*",)): cands, (3, ("*",)): ("e", EXPR, "Simple", ())})
+            except AI.Lossy:
+                need(False, "derive_dot_expression: state space too large for the evaluation")
+            terr = {(f_, b) for f_ in helpers for b, j, pl, rv, m in F.fns[f_].assigns()
+                    if rv["k"] == "agg" and rv.get("adt") == SHAPE and rv.get("variant") == "TypeErr"}
+            hit = sorted(x for x in sim.visited_fired if x in terr)
+            n_sites += 1
+            r.inst("%s:empty-candidates:walk#%d" % (hn.split("::")[-1], k_), hf.where(wb), not hit,
+                   "a walk over an empty candidate list is never followed by a type error (not reached, or the result stays open)" if not hit else
+                   "a selector on a shape with an empty candidate list walks the (empty) list and reports a type error at %s: "
+                   "`let l = [] + [{name = 1}]; let n = l.0.name;` is rejected although it evaluates" % F.fns[hit[0][0]].where(hit[0][1]))
+    need(n_sites, "derive_dot_expression: no walk over candidate shapes found (idiom not recognised)")
     return r
 
 
